@@ -501,6 +501,33 @@ def held_buffer_drained(tree, rep, rule, prog, cname, attr, what):
             used = any(isinstance(c, ast.Call) and any(isinstance(a, ast.Name) and a.id in tnames for aa in c.args for a in ast.walk(aa))
                        for b in loop.body for c in ast.walk(b))
             ok = ok or (src_ok and complete and used)
+        # the same walk spelled as `while <alias>: use(<alias>.pop(0))`
+        for loop in [n for n in ast.walk(fn) if isinstance(n, ast.While)]:
+            ln = g.node_of(loop)
+            names = [x.id for x in ast.walk(loop.test) if isinstance(x, ast.Name)]
+            if ln is None or len(names) != 1:
+                continue
+            defs = local_defs(fn, names[0])
+            if not (len(defs) == 1 and defs[0] is not OPAQUE and is_self_attr(strip(defs[0]), attr)):
+                continue
+            dn = g.node_of(stmt_of(defs[0]))
+            src_ok = dn is not None and not g.reaches_after(reset_nodes, [dn]) and not g.precedes([dn], [ln])
+            pops = [c for b in loop.body for c in ast.walk(b) if isinstance(c, ast.Call) and isinstance(c.func, ast.Attribute)
+                    and isinstance(c.func.value, ast.Name) and c.func.value.id == names[0]
+                    and (c.func.attr == "popleft" or (c.func.attr == "pop" and len(c.args) == 1 and is_const(c.args[0], 0)))]
+            complete = not any(isinstance(x, (ast.Break, ast.Return)) for b in loop.body for x in ast.walk(b))
+            handed = False
+            for c in pops:
+                par = getattr(c, "_parent", None)
+                if isinstance(par, ast.Starred):
+                    par = getattr(par, "_parent", None)
+                if isinstance(par, ast.Call) and par is not c:
+                    handed = True
+                elif isinstance(par, ast.Assign) and len(par.targets) == 1:
+                    tn = {x.id for x in ast.walk(par.targets[0]) if isinstance(x, ast.Name)}
+                    handed = handed or any(isinstance(cc, ast.Call) and any(isinstance(a, ast.Name) and a.id in tn for aa in cc.args for a in ast.walk(aa))
+                                           for b in loop.body for cc in ast.walk(b))
+            ok = ok or (src_ok and complete and len(pops) == 1 and handed)
         rep.check(rule, "%s.%s empties self.%s only while handing every held element on (a complete walk over the old content)" % (cname, fname, attr),
                   ok, site(fn, ci.file), key="%s:%s.%s:drained:%s" % (rule, cname, attr, fname), what=what)
     for w in takers:
